@@ -142,10 +142,13 @@ theorem other_objects_untouched (ops : List WOp) (w : World) (j : Nat) (hj : j <
     (ht : ∀ op ∈ ops, op.target ≠ some j) : (wrun ops w).objs[j]? = w.objs[j]? :=
   wrun_frame ops w j hj ht
 
-/-- Global NumPy RNG use and caller writes are not inputs of any object's transition. -/
-theorem global_state_and_caller_writes_ignored (w : World) (x n : Nat) :
-    (wstep w (.seed x)).1 = w ∧ (wstep w (.rand n)).1 = w ∧ (wstep w .scribble).1 = w :=
-  ⟨rfl, rfl, rfl⟩
+/-- Global NumPy RNG use and caller writes (into returned chunks, into its own parameter arrays)
+are not inputs of any object's transition. -/
+theorem global_state_and_caller_writes_ignored (w : World) (x n a : Nat) :
+    (wstep w (.seed x)).1 = w ∧ (wstep w (.rand n)).1 = w ∧ (wstep w .scribble).1 = w ∧
+      (wstep w (.wwrite a)).1.objs = w.objs := by
+  refine ⟨rfl, rfl, rfl, ?_⟩
+  simp only [wstep]; split <;> rfl
 
 /-- `copy.deepcopy` yields an object with the same value under a new identity. -/
 theorem deepcopy_takes_value (w : World) (o : Nat) (x : Obj) (h : w.objs[o]? = some x) :
@@ -187,7 +190,7 @@ theorem output_determined_by_own_lineage (w w' : World) (o o' n : Nat) (l : Lin)
   simp only [wstep, h, h', and_self]
 
 -- non-vacuity: one generator queued, then used, reset, copied, global RNG touched: queue untouched
-example : (wrun [.next 0 3, .seed 1, .reset 0, .copy 0, .scribble, .next 2 4, .rand 5]
+example : (wrun [.next 0 3, .seed 1, .reset 0, .copy 0, .scribble, .next 2 4, .rand 5, .wwrite 0]
       (wstep (wrun [.new 0, .next 0 5, .qnew "brand" 7] { World.init with nspecs := 1 }) (.append 1 0 2 3)).1).objs[1]?
     = some (.queue "brand" 7 [.app ⟨0, [5]⟩ 2 3]) := by decide
 
